@@ -183,7 +183,7 @@ def rule_write(R):
             n += 1
             a = pcode.rvalue_term(rv)
             fl = dict(zip(a[4], a[5]))
-            r, nm = chain(fl["written"])
+            r, nm = chain(fl["written"]) if "written" in fl else (None, [])
             okw = nm[-3:] == ["state", "@Write", "written"] and r == ("param", "step")
             if "len" in fl:
                 ln = peel(fl["len"])
@@ -192,7 +192,7 @@ def rule_write(R):
                 okl = "bytes" in fl   # no separate length is carried: the length is that of the bytes by construction
             R.ob("write/step-fields#%d" % n, okw and okl,
                  "a write step starts at the entry's recorded `written` and its length is the length of its bytes (written %s)"
-                 % show(fl["written"]), where=s["span"])
+                 % (show(fl["written"]) if "written" in fl else "not carried by the step"), where=s["span"])
     R.floor("write/step-fields", n, 3, "WriteStep constructions")
     # write_current: Ok(0) -> WriteZero, Ok(n) -> n
     wc = pcode if inline_write else f.code(roles.free_fn(f, "write_current"))
